@@ -12,7 +12,7 @@ import (
 // spelling, either orientation, any of the four arrow forms, optionally inside
 // a chain through c) and returns the program text.
 func c11Edges(k int) string {
-	forms := []string{"a -> b", "b -> a", "a <- b", "a -- b", "a <-> b", "A -> b", "a -> b -> c", "b <- A", "a -> B -> a"}
+	forms := []string{"a -> b", "b -> a", "a <- b", "a -- b", "a <-> b", "A -> b", "a -> b -> c", "b <- A", "a -> B -> a", "b <-> a", "b -- A", "B <-> a -- b"}
 	var sb strings.Builder
 	for i := 0; i < k; i++ {
 		sb.WriteString(forms[nd.Choose("form"+strconv.Itoa(i), 0, len(forms)-1)])
@@ -58,42 +58,57 @@ func VerifC11Index() {
 }
 
 // VerifC11Ref: a reference to an existing index changes exactly that
-// connection; a reference to a missing index is an error.
+// connection; a reference to a missing index is an error. The base holds
+// connections between a and b in both orientations and all four arrow forms;
+// the reference names one orientation and arrow form (either letter case).
 func VerifC11Ref() {
+	arrows := []string{"->", "<-", "--", "<->"}
 	k := nd.Choose("k", 1, nd.Param("K", 3))
 	base := ""
+	type conn struct {
+		flip  bool
+		arrow int
+	}
+	var conns []conn
 	for i := 0; i < k; i++ {
-		if nd.Bool("other" + strconv.Itoa(i)) {
-			base += "b -> a: o" + strconv.Itoa(i) + "\n"
+		c := conn{nd.Bool("flip" + strconv.Itoa(i)), nd.Choose("arrow"+strconv.Itoa(i), 0, nd.Param("ARROWS", 4)-1)}
+		conns = append(conns, c)
+		if c.flip {
+			base += "b " + arrows[c.arrow] + " a: l" + strconv.Itoa(i) + "\n"
 		} else {
-			base += "a -> b: l" + strconv.Itoa(i) + "\n"
+			base += "a " + arrows[c.arrow] + " b: l" + strconv.Itoa(i) + "\n"
 		}
 	}
 	g0, _, err0 := Compile("index.d2", strings.NewReader(base), nil)
 	nd.Assert(err0 == nil, "base compiles")
-	n := 0
-	for _, e := range g0.Edges {
-		if e.Src.AbsID() == "a" {
-			n++
+	ref := conn{nd.Bool("refflip"), nd.Choose("refarrow", 0, nd.Param("ARROWS", 4)-1)}
+	// the connections the reference can mean, in declaration order
+	var same []int
+	for i, c := range conns {
+		if c == ref {
+			same = append(same, i)
 		}
 	}
 	idx := nd.Choose("idx", 0, 3)
-	src := "a"
-	if nd.Bool("refcase") {
-		src = "A"
+	x, y := "a", "b"
+	if ref.flip {
+		x, y = "b", "a"
 	}
-	g1, _, err1 := Compile("index.d2", strings.NewReader(base+"("+src+" -> b)["+strconv.Itoa(idx)+"].style.opacity: 0.5\n"), nil)
-	if idx >= n {
+	if nd.Bool("refcase") {
+		x = strings.ToUpper(x)
+	}
+	g1, _, err1 := Compile("index.d2", strings.NewReader(base+"("+x+" "+arrows[ref.arrow]+" "+y+")["+strconv.Itoa(idx)+"].style.opacity: 0.5\n"), nil)
+	if idx >= len(same) {
 		nd.Cover("missing")
 		nd.Assert(err1 != nil, "a reference to a missing connection index is an error")
 		return
 	}
 	nd.Cover("hit")
 	nd.Assert(err1 == nil, "a reference to an existing index compiles")
-	nd.Assert(len(g1.Edges) == len(g0.Edges), "an indexed reference creates no connection")
+	nd.Assert(len(g1.Edges) == len(g0.Edges) && len(g0.Edges) == k, "an indexed reference creates no connection")
 	for i, e := range g1.Edges {
-		hit := e.Src.AbsID() == "a" && e.Index == idx
+		hit := i == same[idx]
 		nd.Assert((e.Style.Opacity != nil) == hit, "exactly the referenced connection is changed")
-		nd.Assert(e.Label.Value == g0.Edges[i].Label.Value && e.AbsID() == g0.Edges[i].AbsID(), "other attributes and IDs are unchanged")
+		nd.Assert(e.Label.Value == "l"+strconv.Itoa(i) && e.Label.Value == g0.Edges[i].Label.Value && e.AbsID() == g0.Edges[i].AbsID(), "other attributes and IDs are unchanged")
 	}
 }
